@@ -28,6 +28,18 @@ def phase_panel(run, pool):
                                             "wall_s": round(time.time() - t, 1)}
 
 
+def phase_paths(run, pool):
+    """C17: exhaustive sweep routine x operator kind x {explicit key, default key} with one reused algorithm object."""
+    t = time.time()
+    progs = P.path_programs_c17()
+    n0 = run.evals
+    pool.run(({"id": i, "kind": "program", "program": p["program"], "name": p["name"], "want_program": False,
+               "deadline": 240, "run_seed": "path:" + p["name"]} for i, p in enumerate(progs)), run.absorb)
+    run.phase_info["dispatch_path_sweep"] = {"programs": run.evals - n0, "routines": len(P.PATH_ROUTINES),
+                                            "operator_kinds": len(P.path_kinds()), "exhaustive": True,
+                                            "wall_s": round(time.time() - t, 1)}
+
+
 def phase_crash(run, pool, progs, max_jobs):
     t = time.time()
     if len(progs) > max_jobs:
@@ -65,6 +77,7 @@ def run_property(prop, tier, seed, workers=None, budget=None):
         if not run.violations and not run.harness:
             if prop == "C17":
                 phase_panel(run, pool)
+                phase_paths(run, pool)
                 phase_crash(run, pool, P.crash_programs_c17(seed), B["crash_jobs"][prop])
             else:
                 from . import program18 as P18
